@@ -9,7 +9,7 @@
 (* macro files.  For each document TLC computes the manually inlined form   *)
 (* (InlineRef); both are compiled by the real code.                         *)
 (***************************************************************************)
-EXTENDS JasmMacro, SequencesExt
+EXTENDS JasmSyntax, SequencesExt
 CONSTANTS MaxUses
 
 S(x) == DStr(x)
@@ -23,7 +23,11 @@ M_z     == MacroDef("@z", <<"p1">>, L(<<DMap1("$or", L(<<DMap1("xor", L(<<S("p1"
 M_two   == MacroDef("@two", <<"p1", "p2">>, L(<<DMap1("mov", L(<<S("p1"), S("p2")>>))>>))
 M_outer == MacroDef("@outer", <<>>, L(<<DMap1("$and", L(<<S("@inner"), S("ret")>>))>>))
 M_inner == MacroDef("@inner", <<>>, L(<<S("leave")>>))
-AllMacros == <<M_one, M_grp, M_str, M_outer, M_inner, M_reg, M_z, M_two>>
+\* formal parameters with short names that also occur INSIDE other names of the body (a in rax, b in rbx)
+M_w     == MacroDef("@w", <<"a", "b">>, L(<<DMap1("$and", L(<<DMap1("mov", L(<<S("a"), S("b")>>)), DMap1("add", L(<<S("rax"), S("a")>>)),
+                                                            DMap1("sub", L(<<S("b"), S("rbx")>>))>>))>>))
+AllMacros == <<M_one, M_grp, M_str, M_outer, M_inner, M_reg, M_z, M_two, M_w>>
+NM == Len(AllMacros)
 
 Call(name, args) == DMap(<<DPair(name, DNull)>> \o args)
 Uses == { S("@one"), S("@grp"), S("@str"), S("@strq"), DMap1("@str", DMap1("times", DInt(2))),
@@ -31,6 +35,7 @@ Uses == { S("@one"), S("@grp"), S("@str"), S("@strq"), DMap1("@str", DMap1("time
           Call("@z", <<DPair("p1", S("eax"))>>), Call("@z", <<DPair("p1", S("ebx"))>>),
           Call("@two", <<DPair("p1", S("eax")), DPair("p2", S("ebx"))>>),
           Call("@two", <<DPair("p1", S("ebx")), DPair("p2", S("eax"))>>),
+          Call("@w", <<DPair("a", S("rcx")), DPair("b", S("rdx"))>>), Call("@w", <<DPair("a", S("rbx")), DPair("b", S("rcx"))>>),
           S("@outer"), DMap1("$not", L(<<S("@grp")>>)), DMap1("$or", L(<<S("@one"), S("@str")>>)),
           DMap1("mov", L(<<DMap1("$deref", DMap(<<DPair("main_reg", S("@reg"))>>))>>)), S("ret") }
 Patterns == { L(s) : s \in UNION { [1..n -> Uses] : n \in 1..MaxUses } }
@@ -38,17 +43,19 @@ Patterns == { L(s) : s \in UNION { [1..n -> Uses] : n \in 1..MaxUses } }
 \* splits of the definition list: <<extra files..., rule file>>, order of the combined list preserved
 Splits == { << <<>>, AllMacros >>,                                         \* everything in the rule file
             << <<AllMacros>>, <<>> >>,                                      \* one extra macro file
-            << <<SubSeq(AllMacros, 1, 4)>>, SubSeq(AllMacros, 5, 8) >>,     \* half and half
+            << <<SubSeq(AllMacros, 1, 4)>>, SubSeq(AllMacros, 5, NM) >>,     \* half and half
             \* two extra files; @outer is in the first, the @inner its body uses in the second
-            << <<SubSeq(AllMacros, 1, 4), SubSeq(AllMacros, 5, 6)>>, SubSeq(AllMacros, 7, 8) >>,
+            << <<SubSeq(AllMacros, 1, 4), SubSeq(AllMacros, 5, 6)>>, SubSeq(AllMacros, 7, NM) >>,
             \* @outer in an extra file, @inner in the rule file
-            << <<SubSeq(AllMacros, 1, 4)>>, SubSeq(AllMacros, 5, 8) >> }
+            << <<SubSeq(AllMacros, 1, 4)>>, SubSeq(AllMacros, 5, NM) >> }
 RECURSIVE FlatSeq(_)
 FlatSeq(ss) == IF ss = <<>> THEN <<>> ELSE Head(ss) \o FlatSeq(Tail(ss))
 Combined(sp) == FlatSeq(sp[1]) \o sp[2]
 ASSUME \A sp \in Splits : Combined(sp) = AllMacros
 
-Docs == { [pattern |-> p, xfiles |-> sp[1], macros |-> sp[2], inlined |-> InlineRef(p, Combined(sp))]
+Docs == { [pattern |-> p, xfiles |-> sp[1], macros |-> sp[2], inlined |-> InlineRef(p, Combined(sp)),
+           \* a listing on which the inlined rule is meant to be found (for behavioural comparisons)
+           witness |-> Witness(Parse(InlineRef(p, Combined(sp))))]
           : p \in Patterns, sp \in Splits }
 \* the inlined form is macro free
 ASSUME \A p \in Patterns : AtNames(InlineRef(p, AllMacros)) = {}
